@@ -5,6 +5,8 @@ import (
 	"database/sql"
 	"fmt"
 	"math"
+	"os"
+	"runtime/debug"
 	"reflect"
 	"strings"
 	"time"
@@ -15,33 +17,33 @@ import (
 )
 
 type Input struct {
-	Type    string  `json:"type"`
-	NoRet   bool    `json:"noret"`
-	Op      string  `json:"op"` // struct | slice | ptrslice | batches | map | maps | mapsptr
-	BS      int     `json:"bs,omitempty"`
-	Pre     int     `json:"pre"`  // rows inserted (and half of them deleted) before the case
-	MapKeys string  `json:"mapkeys,omitempty"` // col | name
-	NoMMap  bool    `json:"nommap,omitempty"`  // skip the Model(&T{}).Take(&map) read (types with serializer fields: known finding)
-	Spec    []GField `json:"spec,omitempty"` // run-time generated struct type (reflect.StructOf); Type = "gen_<n>"
-	XRecs   [][]Val `json:"xrecs,omitempty"` // values of struct leaves that gorm mapped to no column (normally none)
-	Recs    [][]Val `json:"recs"` // canonical values per record, in column (DBNames) order
+	Type    string   `json:"type"`
+	NoRet   bool     `json:"noret"`
+	Op      string   `json:"op"` // struct | slice | ptrslice | batches | map | maps | mapsptr
+	BS      int      `json:"bs,omitempty"`
+	Pre     int      `json:"pre"`               // rows inserted (and half of them deleted) before the case
+	MapKeys string   `json:"mapkeys,omitempty"` // col | name
+	NoMMap  bool     `json:"nommap,omitempty"`  // skip the Model(&T{}).Take(&map) read (types with serializer fields: known finding)
+	Spec    []GField `json:"spec,omitempty"`    // run-time generated struct type (reflect.StructOf); Type = "gen_<n>"
+	XRecs   [][]Val  `json:"xrecs,omitempty"`   // values of struct leaves that gorm mapped to no column (normally none)
+	Recs    [][]Val  `json:"recs"`              // canonical values per record, in column (DBNames) order
 }
 
 type Obs struct {
-	Base     int64     `json:"base"`      // sqlite_sequence value before Create
-	Err      string    `json:"err"`       // Create error ("" = none; "panic: ..." for a panic)
-	After    [][]Val   `json:"after"`     // in-memory records after Create
-	Rows     [][]Val   `json:"rows"`      // row storing record i (by marker), canonical db values; nil if none
-	RowCount int64     `json:"row_count"` // rows carrying one of the case's markers
-	Find     [][]Val   `json:"find"`
-	XFind    [][]Val   `json:"xfind"` // the unmapped leaves as read back by Find
-	First    [][]Val   `json:"first"`
-	Take     [][]Val   `json:"take"`
-	ByKey    [][]Val   `json:"bykey"` // First/Take(&T{<own primary key>}) without any Where
-	MMap     [][]Val   `json:"mmap"` // Model(&T{}).Take(&map)
-	TMap     [][]Val   `json:"tmap"` // Table(t).Take(&map)
-	NMaps    int64     `json:"nmaps"` // length of the []map slice after Create (map ops)
-	ReadErrs []string  `json:"read_errs"`
+	Base     int64    `json:"base"`      // sqlite_sequence value before Create
+	Err      string   `json:"err"`       // Create error ("" = none; "panic: ..." for a panic)
+	After    [][]Val  `json:"after"`     // in-memory records after Create
+	Rows     [][]Val  `json:"rows"`      // row storing record i (by marker), canonical db values; nil if none
+	RowCount int64    `json:"row_count"` // rows carrying one of the case's markers
+	Find     [][]Val  `json:"find"`
+	XFind    [][]Val  `json:"xfind"` // the unmapped leaves as read back by Find
+	First    [][]Val  `json:"first"`
+	Take     [][]Val  `json:"take"`
+	ByKey    [][]Val  `json:"bykey"` // First/Take(&T{<own primary key>}) without any Where
+	MMap     [][]Val  `json:"mmap"`  // Model(&T{}).Take(&map)
+	TMap     [][]Val  `json:"tmap"`  // Table(t).Take(&map)
+	NMaps    int64    `json:"nmaps"` // length of the []map slice after Create (map ops)
+	ReadErrs []string `json:"read_errs"`
 }
 
 var clockReads int
@@ -116,6 +118,9 @@ func run(in Input) (o Obs) {
 		defer func() {
 			if r := recover(); r != nil {
 				o.Err = fmt.Sprint("panic: ", r)
+				if os.Getenv("C03_DEBUG") != "" {
+					fmt.Fprintf(os.Stderr, "%s\n", debug.Stack())
+				}
 			}
 		}()
 		switch in.Op {
@@ -302,13 +307,23 @@ func run(in Input) (o Obs) {
 			continue
 		}
 		rec := reflect.New(d.t)
-		if err := db.Where("mark = ?", m).First(rec.Interface()).Error; err != nil {
+		first := db.Where("mark = ?", m).First(rec.Interface())
+		if i%2 == 1 {
+			rec = reflect.New(d.t)
+			first = db.First(rec.Interface(), "mark = ?", m) // inline condition
+		}
+		if err := first.Error; err != nil {
 			rerr("first", err)
 		} else {
 			o.First[i] = d.canonRec(rec)
 		}
 		rec = reflect.New(d.t)
-		if err := db.Where("mark = ?", m).Take(rec.Interface()).Error; err != nil {
+		take := db.Where("mark = ?", m).Take(rec.Interface())
+		if i%2 == 1 {
+			rec = reflect.New(d.t)
+			take = db.Take(rec.Interface(), map[string]interface{}{"mark": m}) // inline map condition
+		}
+		if err := take.Error; err != nil {
 			rerr("take", err)
 		} else {
 			o.Take[i] = d.canonRec(rec)
@@ -336,8 +351,11 @@ func run(in Input) (o Obs) {
 			o.ByKey[i] = o.Find[i] // no usable key in memory (reported elsewhere): nothing to reload by
 		} else {
 			q := db.Take
-			if i%2 == 0 {
+			switch i % 3 {
+			case 0:
 				q = db.First
+			case 2:
+				q = db.Last
 			}
 			if err := q(rec.Interface()).Error; err != nil {
 				rerr("bykey", err)
@@ -345,7 +363,7 @@ func run(in Input) (o Obs) {
 				o.ByKey[i] = d.canonRec(rec)
 			}
 		}
-		mm := map[string]interface{}{}
+		var mm map[string]interface{} // a nil map: allocated by Scan
 		if in.NoMMap {
 		} else if err := db.Model(model).Where("mark = ?", m).Take(&mm).Error; err != nil {
 			rerr("mmap", err)
